@@ -140,7 +140,3 @@ func cmdVerify(args []string) {
 	}
 }
 
-func cmdCheck(args []string) {
-	fmt.Println("not implemented yet")
-	os.Exit(2)
-}
